@@ -22,10 +22,10 @@ claim("C04", HIST + "bounds oracle after every sample, panics recovered",
 claim("C05", CONC + "enforced-limit == estimate invariant right after construction (both public constructors) and at stable points for all strategy kinds (dynamic partitions, F-lag, debug loggers) + state-based check of every completed update (incl. a settable limit changed from outside)",
       "Window-closing completions race under seeded schedules; at every stable point the strategy limit, partition shares and limit gauges must equal the floored estimate.",
       NOTE_CONC, "DESIGN.md §3 C05")
-claim("C06", HIST + "never-raises check on every drop sample (exact AIMD arithmetic) + bounded-liveness suffix of sustained drops; concurrent AIMD samples must be serializable (seeded schedules)",
+claim("C06", HIST + "never-raises check on every drop sample (exact AIMD arithmetic) + bounded-liveness suffix of sustained drops; concurrent AIMD samples must be serializable and concurrent drop-only samples on Vegas / Gradient never raise the estimate (seeded schedules)",
       "Reachable states are produced by seeded prefixes; every drop sample is checked and a sustained drop run must reach the floor within a configuration-derived bound.",
       NOTE_HIST + " Bounds are generous closed forms (calibrated, DESIGN.md §3 C06/C07).", "DESIGN.md §3 C06")
-claim("C07", HIST + "demand-gate check on every app-limited sample + bounded-liveness suffix of healthy saturated samples; concurrent AIMD samples must be serializable (seeded schedules)",
+claim("C07", HIST + "demand-gate check on every app-limited sample + bounded-liveness suffix of healthy saturated samples; concurrent AIMD samples must be serializable and concurrent healthy saturated samples on Vegas / Gradient / Gradient2 never lower the estimate (seeded schedules)",
       "Reachable states from seeded prefixes; the per-sample growth rules (AIMD, Gradient) and bounded recovery to the ceiling (Vegas, Gradient, Gradient2) are checked.",
       NOTE_HIST + " Gradient probe interval 1 (probe on every sample) is outside the check's domain.", "DESIGN.md §3 C07")
 claim("C08", HIST + "relational twin-run oracle (same seed, same prefix, final sample differing only in rtt)",
@@ -40,10 +40,10 @@ claim("C10", CONC + "stable-point invariant 'no caller blocked while capacity is
 claim("C11", CONC + "scripted arrival orders + reference backlog list for every constructor, incl. expiries, cancellations, releases racing with a late caller that may barge in, and a partitioned delegate that refuses the head while it would admit a later waiter",
       "Arrival order is pinned by running each arrival to a stable point; after each release the grantee must be the reference backlog's oldest/newest, for every way of constructing the limiter.",
       NOTE_CONC, "DESIGN.md §3 C11")
-claim("C12", CONC + "blocked-callers <= max backlog at every quiescent point, queue_size gauge == blocked callers at stable points, sequential-model check of solo Acquires",
+claim("C12", CONC + "blocked-callers <= max backlog at every quiescent point, queue_size gauge == blocked callers at stable points and whenever no caller is inside an operation, sequential-model check of solo Acquires",
       "Simultaneous arrivals are parked between the length check and the push; give-ups coincide with hand-offs on the virtual clock.",
       NOTE_CONC, "DESIGN.md §3 C12")
-claim("C13", CONC + "exact-instant bound oracle on the virtual clock (arrival+timeout, deadline, cancel instant, context deadlines, equality cases; strict F-lag for slow releasers)",
+claim("C13", CONC + "exact-instant bound oracle on the virtual clock (arrival+timeout, deadline incl. the zero time, cancel instant, context deadlines, equality cases); strict F-lag for slow releasers and slow callers, which are exempt from exact instants but must still return",
       "With all capacity held (or released on the same 1 ms grid as the bounds) every blocked call must return refused exactly at its bound; already-cancelled / past-deadline calls at the arrival instant.",
       NOTE_CONC, "DESIGN.md §3 C13")
 claim("C14", HIST + "event-log protocol oracle over fake handler/invoker/stream and recording limiter doubles with injected refusals and errors; concurrent parts on real limiters; end-to-end part: real gRPC client and server over an in-memory listener inside the bubble, handler goroutines scheduled by the simulator, client deadlines / cancellations mid-call, ledger oracle (exactly-once completion, refusal short-circuit, unchanged results, zero in flight at the end)",
